@@ -39,7 +39,7 @@ const OBSERVED: [(&str, &[&str]); 7] = [
 ];
 
 /// pool of other files: (id, text, key registered, kind)
-const POOL: [(&str, &str, &str, &str); 28] = [
+const POOL: [(&str, &str, &str, &str); 29] = [
     ("b-itf-1", "package p; interface B { }", "p.B", "interface"),
     ("b-itf-2", "package p; import o.Obs; interface B { void x(in Obs o); const int K = 1; }", "p.B", "interface"),
     ("b-par-1", "package p; parcelable B { }", "p.B", "parcelable"),
@@ -70,6 +70,8 @@ const POOL: [(&str, &str, &str, &str); 28] = [
     // unrelated files that use the observed file's simple names through other imports / none
     ("uses-x-b-only", "package w3; import x.B; parcelable W3 { B b; List<B> l; }", "w3.W3", "parcelable"),
     ("uses-bare-b", "package w4; oneway interface W4 { void f(in B b, out C c) = 1; int g(); }", "w4.W4", "interface"),
+    // a recovered syntax error (diagnostic already collected), then a fatal one: no tree
+    ("recovered-then-fatal", "package p; parcelable B { int ; int x; }\n#", "", ""),
     ("declares-thing", "package v; parcelable Thing; parcelable Other; parcelable B; interface V { void f(in Thing t, in Other o, in B b); }", "v.V", "interface"),
 ];
 
@@ -258,8 +260,15 @@ pub fn run(tier: Tier, seed: u64) -> i32 {
             perts.push(vec![(1, *i, *i)]);
             for j in 0..POOL.len() {
                 if !base.contains(&j) {
-                    perts.push(vec![(1, *i, *i), (0, j, j)]);
-                    perts.push(vec![(2, *i, j)]);
+                    // quick tier, two-file bases: swap with every other file, replace in place with
+                    // the remaining ones (single-file bases and the thorough tier: both with all)
+                    let both = tier == Tier::Thorough || base.len() < 2;
+                    if both || (i + j) % 2 == 0 {
+                        perts.push(vec![(1, *i, *i), (0, j, j)]);
+                    }
+                    if both || (i + j) % 2 == 1 {
+                        perts.push(vec![(2, *i, j)]);
+                    }
                 }
             }
         }
